@@ -28,6 +28,8 @@ type Store struct {
 	// Hook, when set, is consulted before every operation; a non-nil error is returned
 	// to the caller and the operation does not happen. It may block (gate).
 	Hook func(op string, key uint) error
+	// OnOp, when set, is told about every completed operation (after the fact).
+	OnOp func(op Op, found bool)
 	// Alias makes Load hand out the stored slice itself instead of a copy.
 	Alias bool
 }
@@ -58,9 +60,11 @@ func (s *Store) Load(key uint) ([]byte, error) {
 		return nil, err
 	}
 	s.mu.Lock()
-	defer s.mu.Unlock()
 	v, ok := s.m[key]
-	s.Log = append(s.Log, Op{Op: "Load", Key: key, Val: v})
+	op := Op{Op: "Load", Key: key, Val: v}
+	s.Log = append(s.Log, op)
+	s.mu.Unlock()
+	s.told(op, ok)
 	if !ok {
 		return nil, nil
 	}
@@ -83,9 +87,11 @@ func (s *Store) Save(key uint, value net.Buffers) error {
 		b = []byte{}
 	}
 	s.mu.Lock()
-	defer s.mu.Unlock()
 	s.m[key] = b
-	s.Log = append(s.Log, Op{Op: "Save", Key: key, Val: b})
+	op := Op{Op: "Save", Key: key, Val: b}
+	s.Log = append(s.Log, op)
+	s.mu.Unlock()
+	s.told(op, true)
 	return nil
 }
 
@@ -95,9 +101,12 @@ func (s *Store) Delete(key uint) error {
 		return err
 	}
 	s.mu.Lock()
-	defer s.mu.Unlock()
+	_, ok := s.m[key]
 	delete(s.m, key)
-	s.Log = append(s.Log, Op{Op: "Delete", Key: key})
+	op := Op{Op: "Delete", Key: key}
+	s.Log = append(s.Log, op)
+	s.mu.Unlock()
+	s.told(op, ok)
 	return nil
 }
 
@@ -121,6 +130,13 @@ func (s *Store) log(op Op) {
 	s.mu.Lock()
 	s.Log = append(s.Log, op)
 	s.mu.Unlock()
+	s.told(op, false)
+}
+
+func (s *Store) told(op Op, found bool) {
+	if f := s.OnOp; f != nil {
+		f(op, found)
+	}
 }
 
 // Raw access for the harness (not logged).
